@@ -89,7 +89,7 @@ type Action struct {
 	// NumTxt: the text of the unparsable numeric field (Sq / Integ = "nonnum"); "" = letters.  With Integ = "nonnum" it replaces
 	// the value of the message's own numeric field (HeartBtInt of a Logon, BeginSeqNo of a ResendRequest) where there is one
 	NumTxt string `json:"numTxt"`
-	// Extra: a message that means the same written differently: 1 = a field the library does not know (9999) at the end of the
+	// Extra (5, 6: look-alike tags 1035=A / 1034=1 134=77 ahead of the genuine MsgType / MsgSeqNum field): a message that means the same written differently: 1 = a field the library does not know (9999) at the end of the
 	// body, 2 = the same inside the header, 3 = TargetCompID before SenderCompID, 4 = SendingTime before MsgSeqNum
 	Extra int `json:"extra"`
 	// Omit: a Logon that lacks EncryptMethod ("enc"), HeartBtInt ("hb") or both ("both"); for the specification the same as an
@@ -184,6 +184,13 @@ func Inbound(a *Action, peerID, ourID string, ts string) []byte {
 		panic("not an inbound action: " + a.A)
 	}
 	fields := []Field{F("35", ty), F("49", peerID), F("56", ourID)}
+	if a.Extra == 5 || a.Extra == 6 {
+		// a longer tag that ends in the digits of MsgType / MsgSeqNum, with a plausible value, AHEAD of the genuine field
+		fields = []Field{F("1035", "A"), F("35", ty), F("49", peerID), F("56", ourID)}
+		if a.Extra == 6 {
+			fields = []Field{F("35", ty), F("1034", "1"), F("134", "77"), F("49", peerID), F("56", ourID)}
+		}
+	}
 	if a.Extra == 3 {
 		fields = []Field{F("35", ty), F("56", ourID), F("49", peerID)}
 	}
@@ -230,6 +237,7 @@ type Digest struct {
 	Sender string `json:"sender"`
 	Target string `json:"target"`
 	Time   string `json:"time"`
+	TimeB  []int  `json:"timeB"` // the bytes of SendingTime (for the trace specifications)
 	Framed bool   `json:"framed"` // BodyLength and CheckSum verified by the tokenizer
 	User   string `json:"user"`
 	Pass   string `json:"pass"`
@@ -260,7 +268,7 @@ func atoiOr(b []byte, def int) int {
 }
 
 func MakeDigest(raw []byte) Digest {
-	d := Digest{Seq: -1, Hb: -1, RefSeq: -1, RefTag: -1, B: -1, E: -1, Trid: []int{}}
+	d := Digest{Seq: -1, Hb: -1, RefSeq: -1, RefTag: -1, B: -1, E: -1, Trid: []int{}, TimeB: []int{}}
 	tags, vals, ok := Split(raw)
 	if !ok {
 		d.Ty = "?"
@@ -299,6 +307,9 @@ func MakeDigest(raw []byte) Digest {
 		d.E = atoiOr(v, -1)
 	}
 	d.Sender, d.Target, d.Time = string(first["49"]), string(first["56"]), string(first["52"])
+	for _, c := range first["52"] {
+		d.TimeB = append(d.TimeB, int(c))
+	}
 	d.User, d.Pass = string(first["553"]), string(first["554"])
 	// framing check (first three tags, last tag, length, checksum)
 	n := len(tags)
